@@ -14,3 +14,5 @@ import ZckModel.Format
 import ZckModel.Header
 import ZckModel.Pin
 import ZckModel.Pred.Hdr
+import ZckModel.Reader
+import ZckModel.Pred.Read
